@@ -89,11 +89,14 @@ class TwoEndedLink(link.Link):
         all is well.  Except the access to a private method... but it seems the
         least bad option, IMO.
         """
-        v2 = self.v2
-        self.unlink_from(self.v1)
-        self._vertices = []
-        self.add_vertex(new)
-        self._vertices.append(v2)
+        old, v2 = self.v1, self.v2
+        self._vertices[:2] = [new, v2]
+        # detach the previous vertex only if it is no longer an end, and
+        # attach the new one only if it does not already list this link
+        if (old is not None) and (old not in self._vertices):
+            old.remove_from_link(self)
+        if (new is not None) and (self not in new.links):
+            new.add_to_link(self)
 
     @property
     def v2(self) -> Vertex:
@@ -119,10 +122,13 @@ class TwoEndedLink(link.Link):
         For a brief on why this exists, see
         :py:meth:`~edgegraph.structure.TwoEndedLink._set_v1`.
         """
-        v1 = self.v1
-        self.unlink_from(self.v2)
-        self._vertices = [v1]
-        self.add_vertex(new)
+        v1, old = self.v1, self.v2
+        self._vertices[:2] = [v1, new]
+        # see _set_v1
+        if (old is not None) and (old not in self._vertices):
+            old.remove_from_link(self)
+        if (new is not None) and (self not in new.links):
+            new.add_to_link(self)
 
     def other(self, end: Vertex) -> Vertex | None:
         """
